@@ -95,6 +95,11 @@ Section Spi.
   (** ** gammastd: [None] cell = nodata *)
   Definition valid_obs (nodata x : F) : bool := negb (feqb O x nodata) && fleb O (f0 O) x.
 
+  (** cal = x[cal_start:cal_stop]; cal[cal != nodata] (after the fix: commit: only observations enter the fit, also when the
+      nodata value is positive) *)
+  Definition cal_window (x : list F) (nodata : F) (cal_start cal_stop : nat) : list F :=
+    filter (fun v => negb (feqb O v nodata)) (firstn (cal_stop - cal_start) (skipn cal_start x)).
+
   Definition gammastd (x : list F) (nodata : F) (cal_start cal_stop : nat) : list (option F) :=
     let obs := filter (fun v => negb (feqb O v nodata)) x in
     let n_zero := length (filter (fun v => feqb O v (f0 O)) obs) in
@@ -104,7 +109,7 @@ Section Spi.
       let p_zero := # (Z.of_nat n_zero) / # (Z.of_nat n_valid) in
       if fltb O (k_09 K) p_zero then map (fun _ => None) x
       else
-        match gammafit (firstn (cal_stop - cal_start) (skipn cal_start x)) with
+        match gammafit (cal_window x nodata cal_start cal_stop) with
         | None => map (fun _ => None) x
         | Some (alpha, beta) =>
             if feqb O alpha (f0 O) || feqb O beta (f0 O) then map (fun _ => None) x
